@@ -798,6 +798,7 @@ class Walker:
         self.init_env = init_env or {}
         self.max_visits = max_visits
         self.assume = {}
+        self.modset = None
         self.on_term = None  # callback(bb, term, getter, path) before a terminator is executed
 
     def run(self, start_bb=0):
@@ -977,7 +978,8 @@ class Walker:
         reference) see a fresh version ('mut', base, n); values read before keep the old version."""
         body = self.body
         env = st["env"]
-        for a in t["args"]:
+        d_, rr_, fn_ = callee(t)
+        for ai, a in enumerate(t["args"]):
             if a["k"] not in ("copy", "move") or a["place"]["p"]:
                 continue
             l = a["place"]["l"]
@@ -990,6 +992,17 @@ class Walker:
             st["mutn"] = st.get("mutn", 0) + 1
             base = v[1] if v[0] == "mut" else v
             nv = ("mut", base, st["mutn"])
+            # frame condition: a local callee that provably writes only some fields of the object leaves the others alone
+            ms = self.modset(rr_, ai + 1) if (self.modset is not None and rr_ is not None) else None
+            if ms is not None and base[0] in ("arg", "mut", "field"):
+                st["heap"] = dict(st["heap"])
+                for f in ms:
+                    st["heap"][("field", v, f)] = ("field", nv, f)
+                    # stale knowledge about deeper places of that field
+                    for hk in list(st["heap"]):
+                        if hk != ("field", v, f) and isinstance(hk, tuple) and _mentions_place(hk, ("field", v, f)):
+                            del st["heap"][hk]
+                continue
             for k in list(env):
                 if env[k] == v:
                     env[k] = nv
@@ -1140,12 +1153,22 @@ class Walker:
             self._go(b2, st2, p2, visited)
 
 
+def _mentions_place(e, place):
+    if e == place:
+        return True
+    if isinstance(e, tuple) and e and e[0] in ("field", "index", "downcast", "proj"):
+        return _mentions_place(e[1], place)
+    return False
+
+
 def walk(body, facts=None, **kw):
     start = kw.pop("start_bb", 0)
     on_term = kw.pop("on_term", None)
     assume = kw.pop("assume", None)
+    modset = kw.pop("modset", None)
     w = Walker(body, facts, **kw)
     w.on_term = on_term
     w.assume = assume or {}
+    w.modset = modset
     w.run(start)
     return w
